@@ -55,8 +55,16 @@ def sched_catalogue(prop, tier, drv=0, precs_extra=True, light=False):
     # K9 zero pivot in the middle (explicit zeros: structure present)
     j.append(sjob(prop, 'chain4', 2, b2, drv=drv, vk=4)); j.append(sjob(prop, 'tree7', 2, 1, drv=drv, vk=4)); j.append(sjob(prop, 'dense4', 2, 1, drv=drv, vk=4, ms=1))
     j.append(sjob(prop, 'relax6', 2, 1, drv=drv, vk=4, relax=3)); j.append(sjob(prop, 'tree7', 2, 1, drv=drv, vk=4, relax=3)); j.append(sjob(prop, 'two6', 2, 1, drv=drv, vk=4, relax=2))
+    j.append(sjob(prop, 'sforest:12545r', 2, 1, drv=drv, vk=6, relax=2)); j.append(sjob(prop, 'tree7', 2, 1, drv=drv, vk=6))     # K15 two zero-pivot columns
     # K12 user-supplied workspace (aligned and misaligned sizes)
     j.append(sjob(prop, 'fork3', 2, b2, drv=drv, lwork=100000)); j.append(sjob(prop, 'tree7', 3, 1, drv=drv, lwork=200004)); j.append(sjob(prop, 'chain4', 2, 1, drv=drv, lwork=100004))
+    # K14 (added after seeded change C05/2 was missed): the U estimate sp_ienv(7) runs out while two threads gather U columns of independent
+    # subtrees; every execution must end in the library's abort path (or succeed), never in an out-of-bounds write
+    j.append(sjob(prop, 'two6', 2, 1, drv=drv, f7=2)); j.append(sjob(prop, 'two6', 2, 1, drv=drv, f7=1)); j.append(sjob(prop, 'tree7', 2, 1, drv=drv, f7=5))
+    if not q:
+        j.append(sjob(prop, 'two6', 2, 2, drv=drv, f7=2)); j.append(sjob(prop, 'two6', 3, 1, drv=drv, f7=2))
+        for f7 in (3, 4, 6, 7): j.append(sjob(prop, 'tree7', 2, 1, drv=drv, f7=f7))
+        j.append(sjob(prop, 'two8', 2, 1, drv=drv, f7=3)); j.append(sjob(prop, 'two8', 2, 1, drv=drv, f8=12))
     # K10 more threads than columns
     j.append(sjob(prop, 'dense1', 3, 2, drv=drv)); j.append(sjob(prop, 'dense2', 3, 1 if q else 2, drv=drv)); j.append(sjob(prop, 'chain3', 4, 1, drv=drv))
     # dynamic supernode storage
@@ -186,6 +194,11 @@ def jobs_C09(tier):
         j += seq('C09', 'q', 'd', 4, 'quick', forced=1)
         j += seq('C09', 'ql', 'd', 3, 'full', forced=1)
     j += sched_catalogue('C09', tier, drv=0, light=True)
+    # first-time AND refactored factors (added after seeded change C09/1 was missed): every call history up to the depth, wellformed() after each factorization
+    for p in ('sdcz' if tier != 'quick' else 'dz'):
+        for pat in (0, 1, 2, 3):
+            for mem in (0, 1):
+                j += hjob('C09', p, pat, mem, 3 if tier == 'quick' else 4, slices=2 if tier == 'quick' else 8)
     return j
 
 
@@ -252,6 +265,16 @@ def jobs_C06(tier):
         if tier != 'quick':
             j += seq('C06', 'q', p, 4, 'quick', vkind=0)
             j += seq('C06', 'q', p, 4, 'quick', vkind=3)
+    # K15 (Engine S; added after seeded change C06/1 was missed): two zero-pivot columns met by different threads in either order; in EVERY
+    # interleaving info must equal the one-thread result (the first zero-pivot column)
+    S6 = 'sforest:12545r'
+    for p in ('sdcz' if tier != 'quick' else 'dz'):
+        j.append(sjob('C06', S6, 2, 1 if (tier == 'quick' and p != 'd') else 2, prec=p, relax=2, vk=6)); j.append(sjob('C06', 'tree7', 2, 1, prec=p, vk=6))
+    j.append(sjob('C06', S6, 3, 1, relax=2, vk=6)); j.append(sjob('C06', 'relax6', 2, 2, relax=3, vk=6)); j.append(sjob('C06', 'two6', 2, 2, vk=6)); j.append(sjob('C06', 'two6', 2, 1, vk=4, relax=2))
+    j.append(sjob('C06', 'chain4', 2, 2, vk=4)); j.append(sjob('C06', 'dense4', 2, 1, vk=4, ms=1)); j.append(sjob('C06', 'lower5', 2, 1, vk=6, w=4, ms=4))
+    if tier != 'quick':
+        j.append(sjob('C06', S6, 3, 2, relax=2, vk=6)); j.append(sjob('C06', 'tree7', 3, 1, vk=6)); j.append(sjob('C06', 'tree7', 2, 2, vk=6)); j.append(sjob('C06', 'two8', 3, 1, vk=6))
+        j.append(sjob('C06', S6, 2, 2, relax=2, vk=6, drv=2)); j.append(sjob('C06', S6, 2, 2, relax=2, vk=6, drv=1))
     return j
 
 
@@ -268,6 +291,17 @@ def jobs_C16(tier):
             j += seq('C16', 'qh', p, 6, 'quick', family='sympat')
     if tier != 'quick':
         j += seq('C16', 'ql', 'd', 4, 'quick')
+    # the storage prediction at its source (added after seeded change C16/2 was missed): EVERY symmetric pattern with full diagonal x 4 orderings,
+    # colcnt_h[j] >= exact Cholesky column count of Pc(A+A')Pc' for every column, part_super_h fundamental, etree exact
+    for n in (1, 2, 3, 4, 5):
+        j.append({'engine': 'mcsym/mcsym.c', 'variant': 'q', 'prec': 'd', 'args': ['--prop', 'C16', '--n', str(n)]})
+    ns6 = 4 if tier == 'quick' else 1
+    for i in range(ns6):
+        j.append({'engine': 'mcsym/mcsym.c', 'variant': 'q', 'prec': 'd', 'args': ['--prop', 'C16', '--n', '6', '--slice', '%d/%d' % (i, ns6)]})
+    if tier != 'quick':
+        for i in range(32):
+            j.append({'engine': 'mcsym/mcsym.c', 'variant': 'qf', 'prec': 'd', 'opt': '-O2', 'args': ['--prop', 'C16', '--n', '7', '--slice', '%d/32' % i]})
+        j.append({'engine': 'mcsym/mcsym.c', 'variant': 'ql', 'prec': 'd', 'args': ['--prop', 'C16', '--n', '5']})
     return j
 
 
@@ -325,7 +359,7 @@ def jobs_hist(prop, tier):
     j = []
     q = tier == 'quick'
     for p in 'sdcz':
-        for pat in (0, 1, 2):
+        for pat in (0, 1, 2, 3):
             for mem in (0, 1):
                 if q:
                     j += hjob(prop, p, pat, mem, 4 if p == 'd' else 3, slices=4 if p == 'd' else 1)
@@ -345,7 +379,7 @@ def jobs_hist(prop, tier):
 
 
 RULE_H = ('exhaustive enumeration of call HISTORIES: every valid word up to the stated depth over the alphabet {F(values,threads): first factorization; R(values,usepr,threads): refactorization that reuses '
-          'ordering, etree and L/U storage; S(trans): solve with the existing factors and a fresh right-hand side; D: destroy} on 3 fixed patterns (4x4 unsymmetric, 5x5 cyclic band, 4x4 dense), 3-4 value sets '
+          'ordering, etree and L/U storage; S(trans): solve with the existing factors and a fresh right-hand side; D: destroy} on 4 fixed patterns (4x4 unsymmetric, 5x5 cyclic band, 4x4 dense, 4x4 whose supernode count depends on the pivots), 3-4 value sets '
           '(diagonal pivots / other pivots / old pivot fails the threshold half-way / rescaled), internal and user-supplied workspace; the state of a history is the history itself replayed on fresh objects '
           '(never merged on observable state); distinct_nontrivial counts distinct (history, bits of L/U/permutations/solutions) outcomes')
 
